@@ -4,6 +4,7 @@
 -/
 import Lean.Data.Json
 import Snmp.Model.UsmParams
+import Snmp.Model.V3Glue
 import Snmp.Model.Basic
 import Snmp.Model.Py
 import Snmp.Model.Types
@@ -677,6 +678,15 @@ def usmIncoming (j : Json) : Except String Json := do
       ("ctx_name", toJson (toHex s.contextName)), ("pdu", pduToJson s.pdu)]] : Array Json))
   | .error e => pure (toJson (#[toJson "error", errToJson e] : Array Json))
 
+def usmIncomingWire (j : Json) : Except String Json := do
+  let c ← credsOfJson (← j.getObjVal? "creds")
+  let cr ← oracleCrypto j
+  let data ← bytesOfJson (← j.getObjVal? "datagram")
+  match V3Glue.incoming cr c data (data.length + 16) with
+  | .ok s => pure (toJson (#[toJson "ok", Json.mkObj [("ctx_engine", toJson (toHex s.contextEngineId)),
+      ("ctx_name", toJson (toHex s.contextName)), ("pdu", pduToJson s.pdu)]] : Array Json))
+  | .error e => pure (toJson (#[toJson "error", errToJson e] : Array Json))
+
 def usmReset (j : Json) : Except String Json := do
   match RawDigest.resetRawDigest (← bytesOfJson (← j.getObjVal? "datagram")) with
   | .ok z => pure (toJson (#[toJson "ok", toJson (toHex z)] : Array Json))
@@ -725,6 +735,7 @@ def handle (j : Json) : Except String Json := do
   | "usm.incoming" => usmIncoming j
   | "usm.outgoing" => usmOutgoing j
   | "usm.reset" => usmReset j
+  | "usm.incoming.wire" => usmIncomingWire j
   | "usm.params" => usmParams j
   | "key.expand" => pure (toJson (toHex (Usm.expand (← bytesOfJson (← j.getObjVal? "pw")) (← getNat j "n"))))
   | "emit" => emitOp j
